@@ -42,8 +42,15 @@ def _Stages(case, text):
     rules0 = m['parse'].ParseFile(text)['rule']
   except BaseException as e:  # pylint: disable=broad-except
     return [{'name': 'parsed', 'skipped': 'parse: %s' % type(e).__name__}]
+  recursive = bool(case['prog'].get('rec'))
   for name, get in (('parsed', lambda: rules0),
-                    ('made', lambda: m['universe'].LogicaProgram(rules0).rules)):
+                    ('made', lambda: [r for _, r in
+                                      m['universe'].LogicaProgram(rules0).rules])):
+    if recursive and name == 'parsed':
+      # the parser's auxiliary predicates lengthen the recursive cycle: the
+      # parsed stage is compared only for non-recursive programs
+      out.append({'name': name, 'skipped': 'recursive program'})
+      continue
     try:
       prog = project.Project(get(), case['query'], inline_of)
       have = {p['name'] for p in prog['preds']}
